@@ -505,15 +505,15 @@ func init() {
 				if len(b) < w {
 					panic(tpanic(fmt.Sprintf("runtime error: index out of range [%d] with length %d (binary.Uint%d)", w-1, len(b), w*8)))
 				}
-				var r *Term = CI(0)
+				ms := make([]*Term, w)
 				for i := 0; i < w; i++ {
-					sh := i
 					if e.big {
-						sh = w - 1 - i
+						ms[i] = asTerm(b[i])
+					} else {
+						ms[w-1-i] = asTerm(b[i])
 					}
-					r = Add(r, Mul(asTerm(b[i]), CInt(Pow2(8*sh))))
 				}
-				return r
+				return Recombine(ms)
 			}
 			put := func(c *Ctx, fr *frame, fn *ssa.Function, args []value, pos token.Pos) value {
 				b := args[1].([]value)
@@ -526,7 +526,7 @@ func init() {
 					if e.big {
 						sh = w - 1 - i
 					}
-					b[i] = Mod(Div(v, CInt(Pow2(8*sh))), CI(256))
+					b[i] = ExtractByte(v, sh)
 				}
 				return nil
 			}
